@@ -403,6 +403,8 @@ pub struct Dgram {
     pub pkts: Vec<PkSum>,
     /// byte range [lo, hi) that was tampered with in transit, if any
     pub damage: Option<(usize, usize)>,
+    /// unique id of the connection that emitted it (-1: endpoint response / injected)
+    pub from_uid: i64,
 }
 
 /// Summary of one genuine packet: identity, extent and non-padding frame counts by FrameStats index
@@ -488,6 +490,10 @@ pub struct ConnSlot {
     pub app_events: Vec<Value>,
     /// destination CID of the most recent packet this connection sent
     pub last_dcid: Vec<u8>,
+    /// identity of the connection within the run (handles are reused by the endpoint)
+    pub uid: i64,
+    /// uid of the connection whose datagram created this one (server side), -1 otherwise
+    pub puid: i64,
 }
 
 pub struct Node {
@@ -529,6 +535,10 @@ pub struct World {
     pub max_trace: usize,
     /// id of the datagram currently being delivered
     pub cur_rx_id: i64,
+    pub cur_rx_uid: i64,
+    pub dcid_ctr: Arc<AtomicU64>,
+    pub cur_tx_uid: i64,
+    pub next_uid: i64,
     /// encoded transport parameters each side presented (tapped at the crypto provider)
     pub tp_server: Arc<Mutex<Vec<Vec<u8>>>>,
     pub tp_client: Arc<Mutex<Vec<Vec<u8>>>>,
@@ -747,6 +757,10 @@ impl World {
             probe_level: 1,
             max_trace: 25_000,
             cur_rx_id: -1,
+            cur_rx_uid: -1,
+            dcid_ctr: Arc::new(AtomicU64::new(0)),
+            cur_tx_uid: -1,
+            next_uid: 0,
             tp_server,
             tp_client,
             issued: Vec::new(),
@@ -804,7 +818,8 @@ impl World {
         let mut c = ClientConfig::new(self.client_cfgs[i].clone());
         c.transport_config(self.client_tcfg.clone());
         let seed = self.cfg.seed;
-        let ctr = Arc::new(AtomicU64::new(0));
+        // one counter per run: every connection attempt gets its own initial destination CID
+        let ctr = self.dcid_ctr.clone();
         let cid_i = i as u64;
         c.initial_dst_cid_provider(Arc::new(move || {
             let n = ctr.fetch_add(1, Ordering::Relaxed);
@@ -850,11 +865,14 @@ impl World {
                         last_frame_rx: [0; 24],
                         app_events: Vec::new(),
                         last_dcid: Vec::new(),
+                        uid: self.next_uid,
+                        puid: -1,
                     },
                 );
+                self.next_uid += 1;
                 let post = self.probe(n, ch.0);
                 self.trace
-                    .push(json!({"ev":"Connect","t":t,"n":n,"c":ch.0,"ok":true,"post":post}));
+                    .push(json!({"ev":"Connect","t":t,"n":n,"c":ch.0,"ok":true,"post":post,"uid":self.next_uid - 1}));
                 if let Some(b) = self.tp_client.lock().unwrap().last() {
                     let mut v = tp_json(b);
                     v["ev"] = json!("TP");
@@ -956,6 +974,7 @@ impl World {
             exact: false,
             pkts: pk_summaries(pkts),
             damage: None,
+            from_uid: self.cur_tx_uid,
         };
         if let Some(mut m) = self.mitm.take() {
             let secrets: Vec<u64> = self
@@ -1086,6 +1105,7 @@ impl World {
             exact: false,
             pkts: Vec::new(),
             damage: None,
+            from_uid: -1,
         });
         id
     }
@@ -1164,13 +1184,15 @@ impl World {
                 }
             }
             let size = data.len();
+            self.cur_tx_uid = self.nodes[n].conns[&c].uid;
             let (id, fate) = self.send_dgram(n, t.destination, data, t.ecn, &pk);
+            self.cur_tx_uid = -1;
             dgs.push(json!({"id":id,"size":size,"fate":fate_str(&fate),
                 "ok":pkts.is_some(),"pkts":pk.iter().map(pkt_json).collect::<Vec<_>>()}));
         }
         let tnow = self.now_us;
         self.trace.push(json!({
-            "ev":"Tx","t":tnow,"n":n,"c":c,"dst":addr_id(t.destination),"size":t.size,
+            "ev":"Tx","t":tnow,"n":n,"c":c,"uid":self.nodes[n].conns[&c].uid,"dst":addr_id(t.destination),"size":t.size,
             "seg":t.segment_size.unwrap_or(0),"ecn":t.ecn.is_some(),
             "dgs":dgs,"pre":pre,"post":post,
         }));
@@ -1206,6 +1228,7 @@ impl World {
         };
         let now = self.now();
         self.cur_rx_id = d.id as i64;
+        self.cur_rx_uid = d.from_uid;
         let mut buf = Vec::new();
         let size = d.data.len();
         let data = BytesMut::from(&d.data[..]);
@@ -1243,7 +1266,23 @@ impl World {
                     "fr":p.frames.iter().map(|(i, c)| json!([i + 1, c])).collect::<Vec<_>>()})
             })
             .collect();
-        let base = json!({"ev":"Rx","t":tnow,"n":n,"id":d.id,"orig":d.orig,"src":addr_id(d.src),
+        // destination connection ID as the routing layer must see it (independent of the decoder)
+        let rdcid: String = {
+            let b = &d.data;
+            let cl = self.nodes[n].cid_len;
+            let cid: &[u8] = if b.is_empty() {
+                &[]
+            } else if b[0] & 0x80 != 0 {
+                if b.len() > 5 && b.len() >= 6 + b[5] as usize { &b[6..6 + b[5] as usize] } else { &[] }
+            } else if b.len() > cl {
+                &b[1..1 + cl]
+            } else {
+                &[]
+            };
+            cid.iter().map(|x| format!("{:02x}", x)).collect()
+        };
+        let base = json!({"ev":"Rx","t":tnow,"n":n,"id":d.id,"orig":d.orig,"suid":d.from_uid,"rdcid":rdcid,
+            "long":d.data.first().is_some_and(|b| b & 0x80 != 0),"damaged":d.damage.is_some(),"src":addr_id(d.src),
             "size":size,"cls":d.cls,"first":d.data.first().copied().unwrap_or(0),"pk":pk,
             "exact":d.exact,"ipk":ipk,
             "otypes":d.pkts.iter().map(|p| match p.ty { PType::Retry => "R", PType::VersionNeg => "V", _ => "P" }).collect::<String>()});
@@ -1312,6 +1351,7 @@ impl World {
                 let mut v = base;
                 v["kind"] = json!("conn");
                 v["c"] = json!(c);
+                v["uid"] = json!(self.nodes[n].conns[&c].uid);
                 v["dfr"] = json!(dfr);
                 v["dfr_sum"] = json!(dfr.iter().sum::<u64>());
                 v["rtok"] = json!(rtok);
@@ -1400,12 +1440,15 @@ impl World {
                         last_frame_rx: [0; 24],
                         app_events: Vec::new(),
                         last_dcid: Vec::new(),
+                        uid: self.next_uid,
+                        puid: self.cur_rx_uid,
                     },
                 );
+                self.next_uid += 1;
                 let p = self.probe(n, ch.0);
                 let fr = frame_rx_vec(&self.nodes[n].conns[&ch.0].conn.stats().frame_rx);
                 self.trace.push(json!({"ev":"Accept","t":t,"n":n,"c":ch.0,"ok":true,"post":p,
-                    "dfr":fr.to_vec(),"peer":peer}));
+                    "dfr":fr.to_vec(),"peer":peer,"uid":self.next_uid - 1,"puid":self.cur_rx_uid}));
                 if let Some(b) = self.tp_server.lock().unwrap().last() {
                     let mut v = tp_json(b);
                     v["ev"] = json!("TP");
@@ -1471,7 +1514,8 @@ impl World {
                 .flatten()
             };
             let ep_post = self.ep_probe(n);
-            self.trace.push(json!({"ev":"EpEvent","t":t,"n":n,"c":c,"drained":drained,
+            let uid = self.nodes[n].conns.get(&c).map(|s| s.uid).unwrap_or(-1);
+            self.trace.push(json!({"ev":"EpEvent","t":t,"n":n,"c":c,"uid":uid,"drained":drained,
                 "dup":drained && already,"ep_pre":ep_pre,"ep_post":ep_post}));
             if let Some(back) = back {
                 self.guarded("conn.handle_event(ids)", |w| {
@@ -1501,7 +1545,7 @@ impl World {
             slot.app_events.push(v.clone());
             let t = self.now_us;
             let st = slot.conn.verif_probe(self.epoch).state;
-            let mut line = json!({"ev":"AppEvent","t":t,"n":n,"c":c,"st":st});
+            let mut line = json!({"ev":"AppEvent","t":t,"n":n,"c":c,"uid":slot.uid,"st":st});
             line["e"] = v;
             self.trace.push(line);
         }
@@ -1674,7 +1718,7 @@ impl World {
                     .iter()
                     .map(move |(c, s)| {
                         let p = s.conn.verif_probe(epoch);
-                        json!({"n":n.idx,"c":c,"lost":s.lost,"drained":s.drained,
+                        json!({"n":n.idx,"c":c,"uid":s.uid,"lcids":p.loc_cid_active.len(),"lost":s.lost,"drained":s.drained,
                             "ifb":p.path.in_flight_bytes,"ifae":p.path.in_flight_ack_eliciting,"st":p.state,
                             "tm0":p.timers[0].unwrap_or(-1),"tm6":p.timers[6].unwrap_or(-1),
                             "pcrypto":p.spaces[0].pending_crypto + p.spaces[1].pending_crypto,
